@@ -29,14 +29,14 @@ def dumpConfig (c : Config) : String :=
   let ops := joinStr ";" (c.operators.map fun o => hexStr o.1 ++ ":" ++ hexStr o.2)
   let svc := joinStr ";" (c.services.map hexStr)
   let kv (m : AMap String String) := joinStr "," (sortStrs (m.map fun e => hexStr e.1 ++ ":" ++ hexStr e.2))
-  s!"CF rev={c.revision} ops={ops} svc={svc} se={c.sessionExpiration} pc={c.postMessageCooloff} tb={kv c.trustedBridges} cu={hexStr c.captchaURL} cs={hexStr c.captchaSecret} cl={b01 c.captchaRequiredForLogin} ms={c.maxSessions} mc={c.maxChannels} bn={kv c.banned}"
+  s!"CF rev={c.revision} ops={ops} svc={svc} se={c.sessionExpiration} pc={c.postMessageCooloff} tb={kv c.trustedBridges} cu={hexStr c.captchaURL} cs={hexStr c.captchaSecret} cl={b01 c.captchaRequiredForLogin} ms={c.maxSessions} mc={c.maxChannels} bn={kv c.banned} wo={joinStr "," (sortStrs (c.whitelistedOrigins.map fun e => hexStr e.1 ++ ":" ++ b01 e.2))}"
 
 def dumpState (st : St) : String :=
   let sess := (st.sessions.map (·.2)).mergeSort (fun a b => idLe a.id b.id)
   let chans := st.channels.mergeSort (fun a b => a.1 ≤ b.1)
   let holds := st.svsholds.mergeSort (fun a b => a.1 ≤ b.1)
   let ni := joinStr "," (sortStrs (st.nicks.map fun e => hexStr e.1 ++ ":" ++ idStr e.2))
-  let parts := [s!"LP={idStr st.lastProcessed}", "SS=" ++ joinStr "," (st.serverSessions.map toString), "NI=" ++ ni]
+  let parts := [s!"LP={idStr st.lastProcessed}", "SS=" ++ joinStr "," (sortStrs (st.serverSessions.map toString)), "NI=" ++ ni]
     ++ sess.map dumpSession ++ chans.map (fun e => dumpChannel e.1 e.2)
     ++ holds.map (fun e => s!"H {hexStr e.1} ad={timeStr e.2.added} du={e.2.duration} re={hexStr e.2.reason}")
     ++ [dumpConfig st.config]
